@@ -492,7 +492,7 @@ func TestC07(t *testing.T) {
 			note = fmt.Sprintf("%s in %s (loop=%v switch=%v fn=%v)", what, c7ctxName(u), u.blk.inLoop, u.blk.inSw, u.blk.fn != nil)
 			sig = rep.Sig{"place": what, "ctx": c7ctxName(u), "loop": fmt.Sprint(u.blk.inLoop), "switch": fmt.Sprint(u.blk.inSw)}
 			nontrivial = u.blk.depth >= 2
-			r.Class("place:"+what+":"+expect)
+			r.Class("place:" + what + ":" + expect)
 		}
 		src := tr.render(at, hn)
 		r.Eval()
